@@ -2,8 +2,8 @@
 
 Spec: specs/WorkUnit.tla - unit life cycle at the grain of file-system steps, CrashDaemon/CrashRunner enabled in every
 state, Restart + per-directory scan as scanForUnit does it; invariant Durable = the expectation-policy table of
-DESIGN.md "C04" (checked modulo the open finding through KF_EmptyStatus; the variant without the excuse must fail,
-and the variant with the pre-fix findUnit must violate NoStatusBlocks).
+DESIGN.md "C04" (checked modulo the open finding 'live runner marked failed' through KF_LiveRunnerFailed; the variants with the
+pre-repair truncate-then-write order, with the pre-fix findUnit and without that excuse must each fail).
 Conformance (fault enumeration on the real binary, engine E3): a dry run of each workload lists every reachable
 (crash point, k, role); for each selected point a fresh daemon is started with VERIF_CRASH_AT, driven until the
 process dies, restarted on the same directory and queried (work list / status / results, with deadlines); the answers
@@ -32,10 +32,13 @@ def run(tier, seed, replay=None):
     cfg = "WorkUnit_crash.cfg" if tier == "quick" else "WorkUnit_crash_full.cfg"
     r = vlib.tlc_must_pass("WorkUnit", cfg, wd, timeout=2400, heap="10g")
     variants = {
-        "KF_EmptyStatus=FALSE (the open finding is in the spec)": variant(wd, "wu_nokf.cfg", [("KF_EmptyStatus = TRUE", "KF_EmptyStatus = FALSE")], "Durable"),
-        "FindUnitHoldsRLock=TRUE (the repaired defect)": variant(wd, "wu_rlock.cfg", [("FindUnitHoldsRLock = FALSE", "FindUnitHoldsRLock = TRUE")], "NoStatusBlocks"),
+        "TruncFirst=TRUE (the repaired truncate-then-write defect)": variant(wd, "wu_truncfirst.cfg", [("TruncFirst = FALSE", "TruncFirst = TRUE")], "Durable"),
+        "FindUnitHoldsRLock=TRUE (the repaired findUnit defect)": variant(wd, "wu_rlock.cfg", [("FindUnitHoldsRLock = FALSE", "FindUnitHoldsRLock = TRUE")], "NoStatusBlocks"),
     }
-    wit = vlib.witnesses("WorkUnit", "WorkUnit_crash.cfg", ["W_NoRecovery", "W_NoEmptyRec", "W_NoSucceeded"], wd)
+    if tier != "quick":
+        variants["KF_LiveRunnerFailed=FALSE (the open finding is in the spec)"] = variant(
+            wd, "wu_nokf.cfg", [("KF_LiveRunnerFailed = TRUE", "KF_LiveRunnerFailed = FALSE"), ("MaxCrashes = 1", "MaxCrashes = 2")], "Durable")
+    wit = vlib.witnesses("WorkUnit", "WorkUnit_crash.cfg", ["W_NoRecovery", "W_NoSucceeded"], wd)
 
     rec = vlib.build_receptor()
     vd = vlib.build_harness("vd")
